@@ -1272,7 +1272,7 @@ def pair_histories(ctx):
     for h in scripted:
         out.append(('same', h, list(h)))
         out.append(('shifted', h, ['c'] + list(h)[:-2]))
-    n = ctx.scale(quick=24, thorough=400)
+    n = ctx.scale(quick=24, thorough=150)
     for _ in range(n):
         hs = []
         for _k in (0, 1):
@@ -1435,7 +1435,7 @@ def lookup_histories(ctx):
                     hh.append('d%d' % (nxt - 1))        # the loss the bus asked for arrives
         if well_formed(hh):
             out.append(('first-message', with_lookups(ctx.rng, hh, names, density=0.5)))
-    n = ctx.scale(quick=120, thorough=2000)
+    n = ctx.scale(quick=120, thorough=900)
     for _ in range(n):
         base = random_history(ctx.rng, ctx.rng.choice((8, 15, 25, 40)))
         if ctx.rng.random() < 0.15:          # one of the names of this history is the bus's own
